@@ -27,9 +27,15 @@ func init() {
 		ID: "C05",
 		Rule: "values of every element kind and of the OSM / Change containers from a seed (every optional field toggled, annotated way nodes, top-level bounds present incl. all-zero, strings needing JSON escapes), marshalled and unmarshalled under four codec configurations (standard; custom marshaler+unmarshaler; each alone) with osmjson shape checks on the generic parse; independently written osmjson documents (version absent / string / number, unknown keys at every level, random key order and layout, \\u escapes, top-level bounds, overpass-style way bounds/geometry); container plans, version decoding, tags and way nodes compared with the model; " +
 			"non-trivial = every op; distinct = distinct op line",
-		Gen:       c05Gen,
-		Exec:      c05Exec,
-		Class:     func(op, out string) string { f := fields(op); if f[0] == "rt" || f[0] == "doc" { return f[0] + "-" + f[1] + "-codec" + f[len(f)-1] }; return f[0] },
+		Gen:  c05Gen,
+		Exec: c05Exec,
+		Class: func(op, out string) string {
+			f := fields(op)
+			if f[0] == "rt" || f[0] == "doc" {
+				return f[0] + "-" + f[1] + "-codec" + f[len(f)-1]
+			}
+			return f[0]
+		},
 		ModelSkip: func(op string) bool { return strings.HasPrefix(op, "rt ") || strings.HasPrefix(op, "doc ") },
 	})
 }
@@ -282,8 +288,10 @@ func (w *jw) obj(kv [][2]string) string {
 	b.WriteString(w.sp() + "}")
 	return b.String()
 }
-func (w *jw) arr(items []string) string { return "[" + w.sp() + strings.Join(items, ","+w.sp()) + w.sp() + "]" }
-func jwF(f float64) string              { return strconv.FormatFloat(f, 'f', -1, 64) }
+func (w *jw) arr(items []string) string {
+	return "[" + w.sp() + strings.Join(items, ","+w.sp()) + w.sp() + "]"
+}
+func jwF(f float64) string { return strconv.FormatFloat(f, 'f', -1, 64) }
 func (w *jw) tags(ts osm.Tags) string {
 	var kv [][2]string
 	for _, t := range ts {
